@@ -260,4 +260,35 @@ def exS2 : Vec 2 := vec2 1 (-1)
 def exS3 : Vec 3 := vec3 1 (-1) 1
 def exS4 : Vec 4 := vec4 (-1) 1 1 (-1)
 
+/-! ### from one cell to the grid: assembly of the global saddle-point system
+
+A grid with `nf` faces and `nc` cells, every cell with `m` local faces; `f c j` is the global
+number of local face `j` of cell `c` (`faces_loc` in `discretize`), `s c j` its `cell_faces` sign. -/
+
+def delta {n : Nat} (a b : Fin n) : Rat := if a = b then 1 else 0
+
+/-- `mass = coo_matrix((data_A, (rows_A, cols_A)))`: local matrices scattered by the face map
+    (duplicates are summed) -/
+def assemble (nf nc m : Nat) (f : Fin nc → Fin m → Fin nf) (L : Fin nc → Mat m m) : Mat nf nf :=
+  fun F G => sumFin nc fun c => sumFin m fun j => sumFin m fun k => delta (f c j) F * L c j k * delta (f c k) G
+
+def restrict {nf m : Nat} (y : Vec nf) (fc : Fin m → Fin nf) : Vec m := fun j => y (fc j)
+
+/-- `div = -sd.cell_faces.T` -/
+def divMat (nf nc m : Nat) (f : Fin nc → Fin m → Fin nf) (s : Fin nc → Vec m) : Mat nc nf :=
+  fun c F => - sumFin m fun j => delta (f c j) F * s c j
+
+/-- sum of the `cell_faces` signs of a face over its cells: `±1` on a boundary face, `0` on an
+    interior face of a well formed grid; `assemble_rhs` puts `-sign_F · p_bc(F)` on Dirichlet faces,
+    i.e. the right-hand side of face row `F` is `-faceSign F · p(x_F)` -/
+def faceSign (nf nc m : Nat) (f : Fin nc → Fin m → Fin nf) (s : Fin nc → Vec m) (F : Fin nf) : Rat :=
+  sumFin nc fun c => sumFin m fun j => delta (f c j) F * s c j
+
+/-- example grid: two triangles sharing face 2 (faces 0,1,2 and 2,3,4) -/
+def exF : Fin 2 → Fin 3 → Fin 5 := fun c j =>
+  match c.val, j.val with
+  | 0, 0 => 0 | 0, 1 => 1 | 0, _ => 2
+  | _, 0 => 2 | _, 1 => 3 | _, _ => 4
+def exSg : Fin 2 → Vec 3 := fun c => match c.val with | 0 => vec3 1 (-1) 1 | _ => vec3 (-1) 1 1
+
 end PorepyVerif.C18
